@@ -206,6 +206,8 @@ func (e *Enc) newAllocRef(hint string) T {
 	e.allocN++
 	c := e.s.Const(fmt.Sprintf("alloc:%s", hint), SInt)
 	e.s.Assume(Gt(c, IntLit(0)))
+	// a fresh object did not exist on entry
+	e.s.Assume(Not(App(SBool, e.s.DeclareFun("isold", []string{SInt}, SBool), c)))
 	// a fresh object is not the interior (field) of another object
 	e.s.Assume(Eq(App(SInt, e.s.DeclareFun("fldowner", []string{SInt}, SInt), c), IntLit(0)))
 	// distinct from earlier allocations and from pointer-typed parameters
